@@ -108,17 +108,19 @@ Section TreeRuns.
     - apply (lin_respects t2 s2 Hp2 He2 Hl2).
   Qed.
 
-  (* whatever organizeFetchTree builds, under any two option settings *)
+  (* whatever organizeFetchTree builds from the planner's fetches (scheduler or legacy waves,
+     with or without a subscription trigger; the MultiFetch stage replaces fetches by merged
+     ones and is outside this statement) *)
   Theorem organize_runs_agree :
     acyclic l -> unique_ids l ->
-    forall sched multi trigger t1 sched' multi' trigger' t2,
-    organize sched multi trigger l = Done t1 -> organize sched' multi' trigger' l = Done t2 ->
+    forall sched trigger t1 sched' trigger' t2,
+    organize sched false trigger l = Done t1 -> organize sched' false trigger' l = Done t2 ->
     forall s1 s2, lin t1 s1 -> lin t2 s2 ->
     forall st, fold_left step s1 st = fold_left step s2 st.
   Proof.
-    intros Ha Hu sched multi trigger t1 sched' multi' trigger' t2 H1 H2.
-    destruct (organize_respects_deps_proof sched multi trigger l t1 Ha Hu H1) as [Hp1 He1].
-    destruct (organize_respects_deps_proof sched' multi' trigger' l t2 Ha Hu H2) as [Hp2 He2].
+    intros Ha Hu sched trigger t1 sched' trigger' t2 H1 H2.
+    destruct (organize_respects_deps_proof sched trigger l t1 Ha Hu H1) as [_ [Hp1 He1]].
+    destruct (organize_respects_deps_proof sched' trigger' l t2 Ha Hu H2) as [_ [Hp2 He2]].
     apply (tree_runs_agree Hu t1 t2 Hp1 He1 Hp2 He2).
   Qed.
 
